@@ -529,3 +529,64 @@ func VerifVamanaParallelInsert() {
 	g.iv.nodeStore = cold
 	g.wellFormed("cold", top+2)
 }
+
+// C10: one pruneDeleteNeighbour step from an arbitrary neighbourhood: node A (id 2) with up to R
+// edges, some of them to nodes that are being deleted, each deleted node with up to R edges of
+// its own, over 6 node ids. Only A's and the deleted nodes' edge lists matter to this step, the
+// others are left empty. Afterwards A respects the degree bound and has no edge to a deleted
+// node, to itself or twice to the same node.
+func VerifPruneDeleteNeighbourStep() {
+	const top = 6
+	r := vparam("R", 2)
+	g := &vGraph{vs: &vVecStore{}, bucket: diskstore.NewMemBucket(false), n: top - 1}
+	g.iv = &IndexVamana{
+		parameters: models.IndexVectorVamanaParameters{VectorSize: 2, DistanceMetric: "euclidean", SearchSize: 3, DegreeBound: r, Alpha: 1.2},
+		vecStore:   g.vs,
+		nodeStore:  cache.NewItemCache[uint64, *graphNode](g.bucket),
+		bucket:     g.bucket,
+	}
+	for id := uint64(1); id <= top; id++ {
+		g.vs.has[id] = true
+	}
+	drawEdges := func(self uint64) []uint64 {
+		var e []uint64
+		for to := uint64(1); to <= top; to++ {
+			if to != self && len(e) < r && nondetBool() {
+				e = append(e, to)
+			}
+		}
+		return e
+	}
+	nodes := map[uint64]*graphNode{}
+	for id := uint64(1); id <= top; id++ {
+		nodes[id] = &graphNode{Id: id}
+	}
+	nodes[2].edges = drawEdges(2)
+	deleteSet := map[uint64]struct{}{}
+	for _, e := range nodes[2].edges {
+		if e != STARTID && nondetBool() {
+			deleteSet[e] = struct{}{}
+			nodes[e].edges = drawEdges(e)
+		}
+	}
+	vassume(len(deleteSet) > 0)
+	for id := uint64(1); id <= top; id++ {
+		g.iv.nodeStore.Put(id, nodes[id])
+	}
+	pointA, err := g.vs.Get(2)
+	vassume(err == nil)
+	err = g.iv.pruneDeleteNeighbour(pointA, nodes[2], deleteSet)
+	vcover("reached")
+	vassert("prune-delete-neighbour-ok", err == nil)
+	after := nodes[2].edges
+	vassert("degree-bound-after-pruning-a-deleted-neighbour", len(after) <= r)
+	for i, e := range after {
+		_, gone := deleteSet[e]
+		vassert("no-edge-to-a-deleted-node", !gone)
+		vassert("no-self-edge", e != 2)
+		vassert("edge-leads-to-an-existing-node", e >= 1 && e <= top)
+		for j := 0; j < i; j++ {
+			vassert("no-duplicate-edge", after[j] != e)
+		}
+	}
+}
